@@ -88,21 +88,21 @@ def seg_class(a0, a1, b0, b1):
     return "general"
 
 
-def _check_seg(a0, a1, b0, b1, tag):
-    """returns (violation|None)"""
+def _check_seg(a0, a1, b0, b1, tag, scale=1.0):
+    """returns (violation|None); `scale` = length scale of the configuration (tolerances are relative to it)"""
     s, t, px, py, qx, qy = _be._closest_points_on_segments_2d(
         float(a0[0]), float(a0[1]), float(a1[0]), float(a1[1]), float(b0[0]), float(b0[1]), float(b1[0]), float(b1[1]))
     cls = seg_class(a0, a1, b0, b1)
-    case = ("seg_one", {"a0": list(a0), "a1": list(a1), "b0": list(b0), "b1": list(b1), "tag": tag})
+    case = ("seg_one", {"a0": list(a0), "a1": list(a1), "b0": list(b0), "b1": list(b1), "tag": tag, "scale": scale})
     if not (0.0 <= s <= 1.0 and 0.0 <= t <= 1.0):
         return violation("closest_points/%s/param_out_of_range" % cls, "s,t outside [0,1]: s=%r t=%r" % (s, t), [s, t], None, case)
     ex = (a0[0] + s * (a1[0] - a0[0]), a0[1] + s * (a1[1] - a0[1]), b0[0] + t * (b1[0] - b0[0]), b0[1] + t * (b1[1] - b0[1]))
-    if max(abs(ex[0] - px), abs(ex[1] - py), abs(ex[2] - qx), abs(ex[3] - qy)) > TOL:
+    if max(abs(ex[0] - px), abs(ex[1] - py), abs(ex[2] - qx), abs(ex[3] - qy)) > TOL * scale:
         return violation("closest_points/%s/points_inconsistent" % cls, "returned points are not a0+s*u, b0+t*v", [px, py, qx, qy], ex, case)
     d = math.hypot(px - qx, py - qy)
     dref = ref_seg_dist(a0, a1, b0, b1)
-    if abs(d - dref) > 1e-9 * (1.0 + dref):
-        return violation("closest_points/%s/not_closest" % cls,
+    if abs(d - dref) > 1e-9 * (scale + dref):
+        return violation("closest_points/%s/not_closest%s" % (cls, "" if scale == 1.0 else "/small_scale"),
                          "segments A=%s-%s B=%s-%s: returned pair at distance %.12g, true segment distance %.12g (s=%g,t=%g)"
                          % (a0, a1, b0, b1, d, dref, s, t), d, dref, case)
     return None
@@ -115,10 +115,12 @@ def k_seg_lattice(params):
     n = 0
     classes = {}
 
+    sc = float(params.get("scale", 1.0))
+
     def tr(p):
         if M is None:
-            return (float(p[0]), float(p[1]))
-        return (M[0][0] * p[0] + M[0][1] * p[1] + M[2][0], M[1][0] * p[0] + M[1][1] * p[1] + M[2][1])
+            return (sc * float(p[0]), sc * float(p[1]))
+        return (sc * (M[0][0] * p[0] + M[0][1] * p[1]) + M[2][0], sc * (M[1][0] * p[0] + M[1][1] * p[1]) + M[2][1])
 
     a0 = LAT[i0]
     for a1 in LAT:
@@ -127,7 +129,7 @@ def k_seg_lattice(params):
                 n += 1
                 cls = seg_class(a0, a1, b0, b1)
                 classes[cls] = classes.get(cls, 0) + 1
-                v = _check_seg(tr(a0), tr(a1), tr(b0), tr(b1), "shear" if M else "lattice")
+                v = _check_seg(tr(a0), tr(a1), tr(b0), tr(b1), "shear" if M else "lattice", sc)
                 if v is not None and v["key"] not in viol:
                     viol[v["key"]] = v
     return res(evals=n, nontrivial=n, viol=list(viol.values()), stats={"segpairs_" + k: v for k, v in classes.items()},
@@ -136,7 +138,7 @@ def k_seg_lattice(params):
 
 def k_seg_one(params):
     worker_init()
-    v = _check_seg(tuple(params["a0"]), tuple(params["a1"]), tuple(params["b0"]), tuple(params["b1"]), params.get("tag", ""))
+    v = _check_seg(tuple(params["a0"]), tuple(params["a1"]), tuple(params["b0"]), tuple(params["b1"]), params.get("tag", ""), float(params.get("scale", 1.0)))
     return res(evals=1, nontrivial=1, viol=[v] if v else [])
 
 
@@ -392,6 +394,11 @@ def cases(tier, seed):
     M = [[math.sqrt(2) + 0.1 * o[0], 1.0 / math.pi + 0.1 * o[1]], [-(math.sqrt(3) - 1) + 0.1 * o[2], math.e / 3 + 0.1 * o[3]], [o[4], o[5]]]
     for i in range(9):
         out.append(("seg_lattice", {"a0": i, "shear": M}))
+    # the statement is scale free: repeat at the length scales of real section data (point spacing 1e-3 .. 1e-6)
+    for sc in (1e-3, 1e-4, 1e-6):
+        for i in range(9):
+            out.append(("seg_lattice", {"a0": i, "shear": M, "scale": sc}))
+            out.append(("seg_lattice", {"a0": i, "scale": sc}))
     ncl = len(_clouds(K))
     nsl = 24 if tier == "quick" else 96
     step = (ncl + nsl - 1) // nsl
